@@ -176,15 +176,12 @@ pub mod lem {
         assert(low_bits_mask(k) == m as int);
     }
 
-    // ------------------------------------------------------------ broadcast layer
-    // These are the only facts about p2/aligned/down/up the solver sees inside function bodies.
-
-    pub broadcast proof fn b_p2_range(a: int)
-        requires #[trigger] p2(a)
-        ensures 1 <= a <= 0x8000_0000_0000_0000, aligned(0x1_0000_0000_0000_0000, a), aligned(0, a)
+    /// 2^64 and 0 are multiples of every power of two
+    pub proof fn p2_top(a: int)
+        requires p2(a)
+        ensures 0x1_0000_0000_0000_0000int % a == 0, 0int % a == 0
     {
         let k = p2_witness(a);
-        reveal(aligned);
         lemma_pow2_adds(k, (64 - k) as nat);
         lemma2_to64_rest();
         lemma_mod_multiples_basic(pow2((64 - k) as nat) as int, a);
@@ -192,19 +189,107 @@ pub mod lem {
         lemma_small_mod(0, a as nat);
     }
 
-    /// a multiple of a that is representable in usize is at least a below 2^64
-    pub broadcast proof fn b_aligned_top(x: int, a: int)
-        requires #[trigger] aligned(x, a), p2(a), x <= 0xffff_ffff_ffff_ffff
-        ensures x + a <= 0x1_0000_0000_0000_0000
+    /// aligned(x, b), a <= b  ==>  x % a == 0   (the un-broadcast form of weakening)
+    pub proof fn weaken(x: int, b: int, a: int)
+        requires aligned(x, b), p2(a), p2(b), a <= b
+        ensures aligned(x, a), x % a == 0
     {
-        b_p2_range(a);
         reveal(aligned);
-        let y = 0x1_0000_0000_0000_0000int;
-        if y - x < a {
-            mod_add(y, x, a);
-            lemma_small_mod((y - x) as nat, a as nat);
+        let _ = p2_witness(a); let _ = p2_witness(b);
+        p2_divides(b, a);
+        mod_trans(x, b, a);
+    }
+
+    pub proof fn down_props(x: int, a: int)
+        requires p2(a)
+        ensures down(x, a) <= x < down(x, a) + a, down(x, a) % a == 0
+    {
+        reveal(down);
+        let _ = p2_witness(a);
+        lemma_mod_bound(x, a);
+        lemma_fundamental_div_mod(x, a);
+        lemma_mod_multiples_basic(x / a, a);
+        assert(x - x % a == a * (x / a));
+        lemma_mul_is_commutative(x / a, a);
+    }
+
+    /// every multiple of a that is <= x is <= down(x, a); every multiple >= x is >= up(x, a)
+    pub proof fn down_greatest(x: int, y: int, a: int)
+        requires p2(a), y % a == 0, y <= x
+        ensures y <= down(x, a)
+    {
+        down_props(x, a);
+        let _ = p2_witness(a);
+        let d = down(x, a);
+        if y > d {
+            mod_add(y, d, a);
+            lemma_small_mod((y - d) as nat, a as nat);
         }
     }
+
+    pub proof fn up_props(x: int, a: int)
+        requires p2(a)
+        ensures
+            x <= up(x, a) < x + a, up(x, a) % a == 0,
+            up(x, a) == down(x + a - 1, a), up(x, a) == down(x - 1, a) + a,
+            x % a == 0 ==> up(x, a) == x,
+    {
+        reveal(up); reveal(down);
+        let _ = p2_witness(a);
+        down_props(x + a - 1, a);
+        down_props(x - 1, a);
+        lemma_mod_add_multiples_vanish(x - 1, a);
+        if x % a == 0 {
+            down_unique(x + a - 1, x, a);
+        }
+    }
+
+    pub proof fn up_least(x: int, y: int, a: int)
+        requires p2(a), y % a == 0, x <= y
+        ensures up(x, a) <= y
+    {
+        up_props(x, a);
+        let _ = p2_witness(a);
+        let u = up(x, a);
+        if u > y {
+            mod_add(u, y, a);
+            lemma_small_mod((u - y) as nat, a as nat);
+        }
+    }
+
+    // ------------------------------------------------------------ broadcast layer
+    // These are the only facts about p2/aligned/down/up the solver sees inside function bodies.
+    // Design rule: no broadcast lemma creates a new `aligned` term except
+    // aligned(up(x,a),a) / aligned(down(x,a),a) for up/down terms that already exist, so the
+    // set of terms stays finite and small (no matching loops, low and stable rlimit use).
+
+    pub broadcast proof fn b_p2_range(a: int)
+        requires #[trigger] p2(a)
+        ensures 1 <= a <= 0x8000_0000_0000_0000
+    { let _ = p2_witness(a); }
+
+    /// literal powers of two (fires as soon as any p2 term is around)
+    pub broadcast proof fn b_p2_lits(a: int)
+        ensures #[trigger] p2(a) == p2(a), p2(8), p2(16), p2(0x1000)
+    { p2_lits(); }
+
+    /// a power of two is a multiple of every smaller power of two
+    /// (goal directed: the `aligned` term must already exist)
+    pub broadcast proof fn b_p2_aligned(a: int, b: int)
+        requires p2(a), p2(b), b <= a
+        ensures #[trigger] aligned(a, b)
+    { reveal(aligned); p2_divides(a, b); }
+
+    /// powers of two >= 16 and multiples of them are multiples of 16 (as plain arithmetic)
+    pub broadcast proof fn b_p2_mod16(a: int)
+        requires #[trigger] p2(a), a >= 16
+        ensures a % 16 == 0
+    { p2_lits(); p2_divides(a, 16); }
+
+    pub broadcast proof fn b_aligned_mod16(x: int, b: int)
+        requires #[trigger] aligned(x, b), p2(b), b >= 16
+        ensures x % 16 == 0
+    { p2_lits(); weaken(x, b, 16); }
 
     /// bit idiom:  x & !m  with m = a - 1
     pub broadcast proof fn b_and_not(x: usize, m: usize)
@@ -214,15 +299,6 @@ pub mod lem {
         reveal(down);
         mask_is_mod(x, m);
         assert(x & !m == x - (x & m)) by(bit_vector);
-    }
-
-    /// bit idiom:  x & m  with m = a - 1   (used by the remaining `%`-free alignment tests)
-    pub broadcast proof fn b_and_mask(x: usize, m: usize)
-        requires p2(m as int + 1)
-        ensures ((#[trigger] (x & m)) == 0) <==> aligned(x as int, m as int + 1)
-    {
-        reveal(aligned);
-        mask_is_mod(x, m);
     }
 
     /// `%` computed by the code
@@ -242,32 +318,14 @@ pub mod lem {
         ensures
             (#[trigger] down(x, a)) <= x < down(x, a) + a,
             aligned(down(x, a), a),
-            aligned(x, a) ==> down(x, a) == x,
+            x >= 0x1_0000_0000_0000_0000 ==> down(x, a) >= 0x1_0000_0000_0000_0000,
+            x >= 0 ==> down(x, a) >= 0,
     {
-        reveal(down); reveal(aligned);
-        let _ = p2_witness(a);
-        lemma_mod_bound(x, a);
-        lemma_mod_sub_multiples_vanish(x, a);
-        // (x - x % a) % a == 0
-        lemma_fundamental_div_mod(x, a);
-        lemma_mod_multiples_basic(x / a, a);
-        assert(x - x % a == a * (x / a));
-        lemma_mul_is_commutative(x / a, a);
-    }
-
-    /// every multiple of a that is <= x is <= down(x, a)
-    pub broadcast proof fn b_down_greatest(x: int, y: int, a: int)
-        requires p2(a), #[trigger] aligned(y, a), y <= x
-        ensures y <= #[trigger] down(x, a)
-    {
-        b_down(x, a);
         reveal(aligned);
-        let d = down(x, a);
-        if y > d {
-            // y - d is a multiple of a in (0, a)
-            mod_add(y, d, a);
-            lemma_small_mod((y - d) as nat, a as nat);
-        }
+        down_props(x, a);
+        p2_top(a);
+        if x >= 0x1_0000_0000_0000_0000 { down_greatest(x, 0x1_0000_0000_0000_0000, a); }
+        if x >= 0 { down_greatest(x, 0, a); }
     }
 
     pub broadcast proof fn b_up(x: int, a: int)
@@ -275,67 +333,135 @@ pub mod lem {
         ensures
             x <= (#[trigger] up(x, a)) < x + a,
             aligned(up(x, a), a),
-            aligned(x, a) ==> up(x, a) == x,
             up(x, a) == down(x + a - 1, a),
             up(x, a) == down(x - 1, a) + a,
+            x <= 0x1_0000_0000_0000_0000 ==> up(x, a) <= 0x1_0000_0000_0000_0000,
+            x <= 0 ==> up(x, a) <= 0,
     {
-        reveal(up); reveal(down); reveal(aligned);
-        let _ = p2_witness(a);
-        b_down(x + a - 1, a);
-        b_down(x - 1, a);
-        lemma_mod_add_multiples_vanish(x - 1, a);
-        if x % a == 0 {
-            down_unique(x + a - 1, x, a);
-        }
+        reveal(aligned);
+        up_props(x, a);
+        p2_top(a);
+        if x <= 0 { up_least(x, 0, a); }
+        if x <= 0x1_0000_0000_0000_0000 { up_least(x, 0x1_0000_0000_0000_0000, a); }
     }
+
+    /// x already a multiple of some b >= a: aligning to a is the identity
+    pub broadcast proof fn b_up_id(x: int, a: int, b: int)
+        requires #[trigger] aligned(x, b), p2(a), p2(b), a <= b
+        ensures (#[trigger] up(x, a)) == x
+    { weaken(x, b, a); up_props(x, a); }
+
+    pub broadcast proof fn b_down_id(x: int, a: int, b: int)
+        requires #[trigger] aligned(x, b), p2(a), p2(b), a <= b
+        ensures (#[trigger] down(x, a)) == x
+    { weaken(x, b, a); down_props(x, a); down_greatest(x, x, a); }
+
+    /// every multiple y of a that is <= x is <= down(x, a)
+    pub broadcast proof fn b_down_greatest(x: int, y: int, a: int)
+        requires #[trigger] aligned(y, a), p2(a), y <= x
+        ensures y <= #[trigger] down(x, a)
+    { weaken(y, a, a); down_greatest(x, y, a); }
 
     /// up(x, a) is the least multiple of a that is >= x
     pub broadcast proof fn b_up_least(x: int, y: int, a: int)
-        requires p2(a), #[trigger] aligned(y, a), x <= y
+        requires #[trigger] aligned(y, a), p2(a), x <= y
         ensures (#[trigger] up(x, a)) <= y
+    { weaken(y, a, a); up_least(x, y, a); }
+
+    /// the same against a 16-aligned bound (chunk range ends) for alignments <= 16
+    pub broadcast proof fn b_down_greatest_16(x: int, y: int, a: int)
+        requires #[trigger] aligned(y, 16), p2(a), a <= 16, y <= x
+        ensures y <= #[trigger] down(x, a)
+    { p2_lits(); weaken(y, 16, a); down_greatest(x, y, a); }
+
+    pub broadcast proof fn b_up_least_16(x: int, y: int, a: int)
+        requires #[trigger] aligned(y, 16), p2(a), a <= 16, x <= y
+        ensures (#[trigger] up(x, a)) <= y
+    { p2_lits(); weaken(y, 16, a); up_least(x, y, a); }
+
+    /// a representable multiple of b is at least a (<= b) below 2^64
+    pub broadcast proof fn b_aligned_top(y: int, b: int, a: int)
+        requires #[trigger] aligned(y, b), p2(b), #[trigger] p2(a), a <= b, y <= 0xffff_ffff_ffff_ffff
+        ensures y + a <= 0x1_0000_0000_0000_0000
     {
-        b_up(x, a);
-        reveal(aligned);
-        let u = up(x, a);
-        if u > y {
-            mod_add(u, y, a);
-            lemma_small_mod((u - y) as nat, a as nat);
+        weaken(y, b, a);
+        p2_top(a);
+        let _ = p2_witness(a);
+        let t = 0x1_0000_0000_0000_0000int;
+        if t - y < a {
+            mod_add(t, y, a);
+            lemma_small_mod((t - y) as nat, a as nat);
         }
     }
 
-    /// multiples of a bigger power of two are multiples of a smaller one
-    pub broadcast proof fn b_aligned_weaken(x: int, a: int, b: int)
-        requires #[trigger] aligned(x, a), p2(a), #[trigger] p2(b), b <= a
-        ensures aligned(x, b)
-    {
-        reveal(aligned);
-        let _ = p2_witness(a); let _ = p2_witness(b);
-        p2_divides(a, b);
-        mod_trans(x, a, b);
-    }
-
-    /// stepping a multiple of a by a layout size that is a multiple of a
-    /// (restricted to layout sizes so that the triple trigger stays cheap)
-    pub broadcast proof fn b_aligned_step(x: int, l: core::alloc::Layout, z: int, a: int)
-        requires #[trigger] aligned(x, a), #[trigger] aligned(lsize(l), a), a > 0, z == x + lsize(l) || z == x - lsize(l)
-        ensures #[trigger] aligned(z, a)
-    {
-        reveal(aligned);
-        mod_add(x, lsize(l), a);
-    }
-
     pub broadcast proof fn b_aligned_16(x: int)
-        ensures (#[trigger] aligned(x, 16)) <==> x % 16 == 0, p2(16)
-    { reveal(aligned); p2_lits(); }
+        ensures (#[trigger] aligned(x, 16)) <==> x % 16 == 0
+    { reveal(aligned); }
 
-    pub broadcast proof fn b_p2_max(a: int, b: int)
+    /// stepping a multiple by a layout size that is a multiple: the sum/difference is a multiple
+    /// (stated on an existing up/down term of a smaller-or-equal alignment; creates no new terms)
+    pub broadcast proof fn b_step_up(x: int, l: core::alloc::Layout, z: int, a: int, b: int, c: int)
+        requires
+            #[trigger] aligned(x, a), #[trigger] aligned(lsize(l), b), p2(a), p2(b), p2(c), c <= a, c <= b,
+            z == x + lsize(l) || z == x - lsize(l),
+        ensures (#[trigger] up(z, c)) == z
+    {
+        weaken(x, a, c); weaken(lsize(l), b, c);
+        let _ = p2_witness(c);
+        mod_add(x, lsize(l), c);
+        up_props(z, c);
+    }
+
+    pub broadcast proof fn b_step_down(x: int, l: core::alloc::Layout, z: int, a: int, b: int, c: int)
+        requires
+            #[trigger] aligned(x, a), #[trigger] aligned(lsize(l), b), p2(a), p2(b), p2(c), c <= a, c <= b,
+            z == x + lsize(l) || z == x - lsize(l),
+        ensures (#[trigger] down(z, c)) == z
+    {
+        weaken(x, a, c); weaken(lsize(l), b, c);
+        let _ = p2_witness(c);
+        mod_add(x, lsize(l), c);
+        down_props(z, c);
+        down_greatest(z, z, c);
+    }
+
+    /// multiples of a bigger power of two are multiples of a smaller one.
+    /// Broad trigger: only for the lemma modules, never inside extracted bodies.
+    pub broadcast proof fn b_weaken(x: int, b: int, a: int)
+        requires #[trigger] aligned(x, b), p2(b), #[trigger] p2(a), a <= b
+        ensures aligned(x, a)
+    { weaken(x, b, a); }
+
+    pub broadcast proof fn b_p2_imax(a: int, b: int)
         requires p2(a), p2(b)
         ensures #[trigger] p2(imax(a, b))
     {}
 
+    /// weakening towards an `aligned` term that already exists (e.g. in the goal)
+    pub broadcast proof fn b_weaken_to(x: int, b: int, a: int)
+        requires #[trigger] aligned(x, b), p2(b), p2(a), a <= b
+        ensures #[trigger] aligned(x, a)
+    { weaken(x, b, a); }
+
+    /// group used inside the bodies of all extracted modules
     pub broadcast group kernel_arith {
-        b_p2_range, b_and_not, b_and_mask, b_mod_aligned, b_cast_neg, b_down, b_down_greatest,
-        b_up, b_up_least, b_aligned_weaken, b_aligned_step, b_aligned_16, b_aligned_top,
+        b_p2_range, b_p2_lits, b_and_not, b_mod_aligned, b_cast_neg, b_down, b_up,
+        b_up_id, b_down_id, b_down_greatest, b_up_least, b_aligned_16, b_weaken_to,
+    }
+
+    /// extra facts for the property-level lemma modules
+    pub broadcast group lemma_arith {
+        b_weaken, b_p2_imax,
+    }
+
+    /// only `bumping` needs size-stepping (cubic trigger)
+    pub broadcast group layout_step {
+        b_step_up, b_step_down, b_down_greatest_16, b_up_least_16, b_aligned_top,
+    }
+
+    /// only `size_config` needs power-of-two sizes being multiples
+    pub broadcast group p2_mult {
+        b_p2_aligned, b_p2_mod16, b_aligned_mod16,
     }
 }
 
